@@ -130,8 +130,14 @@ def near_integer_order_grid(cls, tier="quick"):
     """parameter sets for which the order of the exponential integral behind the correlation is an
     integer up to rounding (TPLStable: 1 + 2 hurst / alpha = 3.9999999999999996) or lies inside the
     library's isclose window around an integer (Integral: 1 + nu / 2 = 2 - 5e-6)"""
+    # (also: a lower cut-off that is tiny relative to the length scale but not zero, and hurst > alpha / 2,
+    # where the incomplete gamma recursion takes more than one step)
     if cls == "TPLStable":
-        return [{"hurst": 0.6, "alpha": 0.4, "len_low": 0.0}]
+        return [{"hurst": 0.6, "alpha": 0.4, "len_low": 0.0}, {"hurst": 0.15, "alpha": 1.0, "len_low": 2e-6}, {"hurst": 0.9, "alpha": 0.7, "len_low": 0.0}]
+    if cls == "TPLGaussian":
+        return [{"hurst": 0.15, "len_low": 2e-6}]
+    if cls == "TPLExponential":
+        return [{"hurst": 0.15, "len_low": 2e-6}, {"hurst": 0.7, "len_low": 0.0}]
     if cls == "Integral":
         return [{"nu": 2.0 - 1e-5}]
     return []
